@@ -9,8 +9,8 @@ from ..core import Result, Violation
 from ..progmc import driver, jobs as J
 
 P = "C09"
-PLACEMENTS = ["root_body", "root_helper", "kept_body", "kept_helper", "two_loads", "kept_datafn", "same_path_twice"]
-PRODUCERS = ["datafn", "keepcall", "keepcall_shared_fn"]
+PLACEMENTS = ["root_body", "root_helper", "kept_body", "kept_helper", "two_loads", "kept_datafn", "same_path_twice", "kept_body_local_import", "kept_body_thread"]
+PRODUCERS = ["datafn", "keepcall", "keepcall_shared_fn", "datafn_in_keep_args"]
 
 
 def make_spec(placement, producer):
@@ -25,6 +25,11 @@ def make_spec(placement, producer):
         funcs[0]["params"] = [["a", None]]
         pre = [{"k": "keep", "path": "/l/p0", "fn": "Pf", "args": [{"lit": "0"}]}]
         prod = {"k": "keep", "path": "/l/p", "fn": "Pf", "args": [{"lit": "5"}]}
+    elif producer == "datafn_in_keep_args":
+        # the producing data function is called inside the argument list of another kept call
+        funcs[0]["datafn"] = "/l/p"
+        funcs.append({"name": "Comb", "module": "main", "params": [["x", None]], "body": []})
+        prod = {"k": "keep", "path": "/l/r", "fn": "Comb", "args": [{"inline": "Pf"}]}
     else:
         prod = {"k": "keep", "path": "/l/p", "fn": "Pf", "args": []}
     prodq = {"k": "call", "fn": "Qf", "form": "plain"}
@@ -35,6 +40,11 @@ def make_spec(placement, producer):
     elif placement == "root_helper":
         funcs.append({"name": "hr", "module": "main", "params": [], "body": [load]})
         reader_items = [{"k": "call", "fn": "hr", "form": "plain"}]
+    elif placement in ("kept_body_local_import", "kept_body_thread"):
+        # the reader imports dds inside its own body / issues the load from a worker thread it starts and joins
+        body = ([{"k": "raw", "text": "import dds"}, load] if placement == "kept_body_local_import" else [dict(load, ctx="thread")])
+        funcs.append({"name": "K", "module": "main", "params": [], "body": body})
+        reader_items = [{"k": "keep", "path": "/l/k", "fn": "K", "args": []}]
     elif placement in ("kept_body", "two_loads", "same_path_twice"):
         body = [load] + ([{"k": "load", "path": "/l/q"}] if two else []) + ([dict(load)] if placement == "same_path_twice" else [])
         funcs.append({"name": "K", "module": "main", "params": [], "body": body})
